@@ -239,50 +239,81 @@ def rule_align_emit(prog, rep, tier):
 
 # ---------------------------------------------------------------------------- ALIGN-parse
 def rule_align_parse(prog, rep, tier, anchor="parse.function"):
-    """ALIGN-parse: where signature defaults are padded so that they can be indexed with the argument index, the padded
-    list has exactly the length of the argument list on every path, and keeps the original defaults as its suffix."""
+    """ALIGN-parse: where signature defaults are padded so that they can be paired with the arguments (by index or by
+    zip), the padded list has exactly the length of the argument list on every path, and keeps the original defaults as
+    its suffix."""
+    from sa.consteval import Folder
+    folder = Folder(prog)
     fi = prog.fn(anchor)
+
+    def pairs_of(e):
+        """the constant ((args attr, defaults attr), ...) table an expression denotes (a display or a module constant)"""
+        alts = [e.body, e.orelse] if isinstance(e, ast.IfExp) else [e]
+        out = []
+        for a in alts:
+            v = folder.fold(a, {}, a)
+            if isinstance(v, (tuple, list)) and v and all(isinstance(x, (tuple, list)) and len(x) == 2 and all(isinstance(y, str) for y in x) for x in v):
+                out.append(tuple(tuple(x) for x in v))
+        return out
+
+    def pair_target(t):
+        return isinstance(t, ast.Tuple) and len(t.elts) == 2 and all(isinstance(e, ast.Name) for e in t.elts)
+
     loops = []
     for n in ast.walk(fi.node):
-        if isinstance(n, ast.For) and isinstance(n.target, ast.Tuple) and len(n.target.elts) == 2 and all(isinstance(e, ast.Name) for e in n.target.elts) \
-                and isinstance(n.iter, ast.Tuple) and all(isinstance(e, ast.Tuple) and len(e.elts) == 2 and all(isinstance(x, ast.Constant) for x in e.elts) for e in n.iter.elts):
+        if isinstance(n, ast.For) and pair_target(n.target) and pairs_of(n.iter) \
+                and any(isinstance(c, ast.Call) and _call_name(c) == "setattr" for c in ast.walk(n)):
             loops.append(n)
-    # consumers: <getattr(obj, D)>[idx] with idx in range(len(getattr(obj, A)))
-    consumers = []
+    # consumers: <getattr(obj, D)>[idx] with idx in range(len(getattr(obj, A))), or zip(getattr(obj, A), getattr(obj, D))
+    consumers = []  # (node, pair target, pair iter, index generator or None, obj)
     for n in ast.walk(fi.node):
         if isinstance(n, ast.GeneratorExp) or isinstance(n, ast.ListComp):
             gens = n.generators
-            pair_gen = [g for g in gens if isinstance(g.target, ast.Tuple) and isinstance(g.iter, (ast.Tuple, ast.IfExp))]
+            pair_gen = [g for g in gens if pair_target(g.target) and pairs_of(g.iter)]
             idx_gen = [g for g in gens if isinstance(g.iter, ast.Call) and _call_name(g.iter) == "range"]
             if pair_gen and idx_gen:
-                consumers.append((n, pair_gen[0], idx_gen[0]))
+                consumers.append((n, pair_gen[0].target, pair_gen[0].iter, idx_gen[0], None))
+        if isinstance(n, ast.Call) and _call_name(n) == "zip" and len(n.args) == 2 and all(isinstance(a, ast.Call) and _call_name(a) == "getattr" and len(a.args) == 2
+                                                                                         and isinstance(a.args[1], ast.Name) for a in n.args) \
+                and dump(n.args[0].args[0]) == dump(n.args[1].args[0]):
+            a_nm, d_nm = n.args[0].args[1].id, n.args[1].args[1].id
+            p = n._parent
+            while p is not None and p is not fi.node:
+                cands = [p] if isinstance(p, ast.For) else list(getattr(p, "generators", []))
+                for g in cands:
+                    if pair_target(g.target) and [e.id for e in g.target.elts] == [a_nm, d_nm] and pairs_of(g.iter):
+                        consumers.append((n, g.target, g.iter, None, n.args[0].args[0]))
+                        p = None
+                        break
+                if p is not None:
+                    p = p._parent
     if not consumers:
-        # alternative idiom: zip(...) of the two lists -> still needs equal length; look for zip of getattr pairs
-        raise AnalysisError("ALIGN-parse: no index-zipped consumer of (args, defaults) found in %s" % anchor)
+        raise AnalysisError("ALIGN-parse: no consumer pairing (args, defaults) by index or by zip found in %s" % anchor)
     if not loops:
         rep.violation(Finding("ALIGN-parse", anchor, "no-padding",
-                              "signature defaults are indexed with the argument index but never padded to the argument count", loc(prog, consumers[0][0])))
+                              "signature defaults are paired with the arguments but never padded to the argument count", loc(prog, consumers[0][0])))
         return
-    for comp, pg, ig in consumers:
-        a_name, d_name = pg.target.elts[0].id, pg.target.elts[1].id
-        # indexed expressions
-        subs = [s for s in ast.walk(comp.elt) if isinstance(s, ast.Subscript) and isinstance(s.slice, ast.Name) and s.slice.id == ig.target.id]
-        rng = ig.iter.args[-1] if ig.iter.args else None
-        pair_iters = [pg.iter] if isinstance(pg.iter, ast.Tuple) else [x for x in (pg.iter.body, pg.iter.orelse) if isinstance(x, ast.Tuple)]
-        loop = next((l for l in loops if any(dump(l.iter) == dump(pi) for pi in pair_iters)), None)
+    for comp, ptarget, piter, ig, zobj in consumers:
+        a_name, d_name = ptarget.elts[0].id, ptarget.elts[1].id
+        loop = next((l for l in loops if any(x in pairs_of(l.iter) for x in pairs_of(piter))), None)
         if loop is None:
             rep.violation(Finding("ALIGN-parse", anchor, "pairs-differ",
-                                  "the padding loop and the consumer iterate different (args, defaults) pairs: %s vs %s" % (src(loops[0].iter, 60), src(pg.iter, 60)), loc(prog, comp)))
+                                  "the padding loop and the consumer iterate different (args, defaults) pairs: %s vs %s" % (src(loops[0].iter, 60), src(piter, 60)), loc(prog, comp)))
             continue
+        if ig is not None:
+            # indexed expressions
+            subs = [s for s in ast.walk(comp.elt) if isinstance(s, ast.Subscript) and isinstance(s.slice, ast.Name) and s.slice.id == ig.target.id]
+            rng = ig.iter.args[-1] if ig.iter.args else None
+            obj = None
+            for s in subs:
+                if isinstance(s.value, ast.Call) and _call_name(s.value) == "getattr" and len(s.value.args) == 2:
+                    obj = s.value.args[0]
+            if obj is None:
+                rep.ob("ALIGN-parse", "consumer shape", "unresolved", loc(prog, comp), "indexed expressions are not getattr(obj, name)[idx]")
+                continue
+        else:
+            obj, rng = zobj, None
         la_name, ld_name = loop.target.elts[0].id, loop.target.elts[1].id
-        # the object whose attributes are read
-        obj = None
-        for s in subs:
-            if isinstance(s.value, ast.Call) and _call_name(s.value) == "getattr" and len(s.value.args) == 2:
-                obj = s.value.args[0]
-        if obj is None:
-            rep.ob("ALIGN-parse", "consumer shape", "unresolved", loc(prog, comp), "indexed expressions are not getattr(obj, name)[idx]")
-            continue
 
         def ga(nm):
             return ast.Call(func=ast.Name(id="getattr", ctx=ast.Load()), args=[obj, ast.Name(id=nm, ctx=ast.Load())], keywords=[])
@@ -308,7 +339,7 @@ def rule_align_parse(prog, rep, tier, anchor="parse.function"):
                 if dump(tail) != dump(D):
                     problems.append("the padded list does not end with the original %s list (%s): positions of the given defaults are not preserved"
                                     % (ld_name, src(tail, 60)))
-        if dump(rng) != dump(ast.Call(func=ast.Name(id="len", ctx=ast.Load()), args=[ga(a_name)], keywords=[])):
+        if ig is not None and dump(rng) != dump(ast.Call(func=ast.Name(id="len", ctx=ast.Load()), args=[ga(a_name)], keywords=[])):
             problems.append("the index range %s is not range(len(getattr(obj, %s)))" % (src(ig.iter, 60), a_name))
         if problems:
             rep.violation(Finding("ALIGN-parse", anchor, "padding", "; ".join(sorted(set(problems))), loc(prog, loop)))
